@@ -125,6 +125,7 @@ CHECKS.update({
             "Thorough adds triples (pre-emption bound 2) and bytecode granularity.",
             T_NOTE, "stateless model checking under a controlled scheduler with a linearizability oracle", "4/C12"),
     "C13": ("F", "fault_enumeration",
+            "Every stat of every call also fails once with EIO (existence probes); known findings C13-P1 / P2 / P3 by exact instance. "
             "For 24 (call, starting state) cases: an OSError (EIO, ENOSPC, EACCES) at every create / open / rename / remove "
             "/ mkdir / write / chmod / flock operation of the recorded trace, one-off and persistent for that path; oracle "
             "from the statement (success only with the whole effect, failed store/tag leaves the pid unbound and storable "
